@@ -100,6 +100,10 @@ pub struct RawOpaquePool {
     /// Tracks which slabs have vacancies, acting as a cache for fast insertion.
     /// Guaranteed 100% accurate - we update the tracker whenever there is a status change.
     vacancy_tracker: VacancyTracker,
+
+    /// Verification hook: identity of this pool in probes and events, see `crate::verif`.
+    #[cfg(folo_verif)]
+    verif_id: usize,
 }
 
 impl RawOpaquePool {
@@ -151,7 +155,39 @@ impl RawOpaquePool {
             drop_policy,
             length: 0,
             vacancy_tracker: VacancyTracker::new(),
+            #[cfg(folo_verif)]
+            verif_id: crate::verif::next_pool_id(),
         }
+    }
+
+    /// Verification hook: read-only snapshot of the pool's bookkeeping, see `crate::verif`.
+    #[cfg(folo_verif)]
+    #[must_use]
+    pub fn verif_probe(&self) -> crate::verif::PoolProbe {
+        crate::verif::PoolProbe {
+            pool_id: self.verif_id,
+            slab_capacity: self.slab_layout.capacity().get(),
+            object_size: self.slab_layout.object_layout().size(),
+            object_align: self.slab_layout.object_layout().align(),
+            slot_size: self.slab_layout.slot_layout().size(),
+            slot_align: self.slab_layout.slot_layout().align(),
+            slot_to_object_offset: self.slab_layout.slot_to_object_offset(),
+            meta_size: size_of::<crate::SlotMeta>(),
+            slab_bytes: self.slab_layout.slot_array_layout().size(),
+            must_not_drop_contents: matches!(self.drop_policy, DropPolicy::MustNotDropContents),
+            len: self.length,
+            slabs: self.slabs.iter().map(Slab::verif_probe).collect(),
+            vacancy_len_bits: self.vacancy_tracker.verif_map().len(),
+            vacancy_blocks: self.vacancy_tracker.verif_map().verif_blocks().to_vec(),
+            next_vacancy: self.vacancy_tracker.next_vacancy(),
+        }
+    }
+
+    /// Verification hook: reports a finished mutator to the installed callback, see `crate::verif`.
+    #[cfg(folo_verif)]
+    #[inline]
+    fn verif_emit(&self, op: crate::verif::Op, slab: usize, slot: usize) {
+        crate::verif::emit(self.verif_id, op, slab, slot, self.length);
     }
 
     /// The layout of objects stored in this pool.
@@ -204,6 +240,9 @@ impl RawOpaquePool {
             .expect("requested capacity exceeds size of virtual memory");
 
         if self.capacity() >= required_capacity {
+            #[cfg(folo_verif)]
+            self.verif_emit(crate::verif::Op::Reserve, crate::verif::NO_INDEX, crate::verif::NO_INDEX);
+
             return;
         }
 
@@ -218,6 +257,9 @@ impl RawOpaquePool {
         );
 
         self.vacancy_tracker.update_slab_count(self.slabs.len());
+
+        #[cfg(folo_verif)]
+        self.verif_emit(crate::verif::Op::Reserve, crate::verif::NO_INDEX, crate::verif::NO_INDEX);
     }
 
     /// Drops unused pool capacity to reduce memory usage.
@@ -245,6 +287,9 @@ impl RawOpaquePool {
 
         if new_len == self.slabs.len() {
             // Nothing to do.
+            #[cfg(folo_verif)]
+            self.verif_emit(crate::verif::Op::ShrinkToFit, crate::verif::NO_INDEX, crate::verif::NO_INDEX);
+
             return;
         }
 
@@ -252,6 +297,9 @@ impl RawOpaquePool {
         self.slabs.truncate(new_len);
 
         self.vacancy_tracker.update_slab_count(self.slabs.len());
+
+        #[cfg(folo_verif)]
+        self.verif_emit(crate::verif::Op::ShrinkToFit, crate::verif::NO_INDEX, crate::verif::NO_INDEX);
     }
 
     /// Inserts an object into the pool and returns a handle to it.
@@ -398,6 +446,9 @@ impl RawOpaquePool {
             }
         }
 
+        #[cfg(folo_verif)]
+        self.verif_emit(crate::verif::Op::Insert, slab_index, slab_handle.index());
+
         // The pool itself does not care about the type T but for the convenience of the caller
         // we imbue the RawPooledMut with the type information, to reduce required casting by caller.
         RawPooledMut::new(slab_index, slab_handle)
@@ -435,6 +486,13 @@ impl RawOpaquePool {
                     .update_slab_status(handle.slab_index(), true);
             }
         }
+
+        #[cfg(folo_verif)]
+        self.verif_emit(
+            crate::verif::Op::Remove,
+            handle.slab_index(),
+            handle.slab_handle().index(),
+        );
     }
 
     /// Removes an object from the pool and returns the object.
@@ -475,6 +533,13 @@ impl RawOpaquePool {
                     .update_slab_status(handle.slab_index(), true);
             }
         }
+
+        #[cfg(folo_verif)]
+        self.verif_emit(
+            crate::verif::Op::RemoveUnpin,
+            handle.slab_index(),
+            handle.slab_handle().index(),
+        );
 
         value
     }
